@@ -768,6 +768,15 @@ pub struct World {
     pub keys: Vec<WriterHeadKey>,
     /// Current policy per head as the harness set it (spec view).
     pub policies: Vec<PolicySpec>,
+    /// Number of simulated restarts so far; selects the restart shape (fresh runtime,
+    /// recovery applied twice, recovery replayed over the warm runtime).
+    pub restarts: u32,
+    /// How often each ingress id has been submitted so far: a repeated submission of a
+    /// ticketed intent alternates between the ticketed route and plain `ingest` (a client
+    /// retry does not have to come back through the route the original took).
+    pub submit_counts: std::collections::BTreeMap<Hash, u32>,
+    /// Number of retries of a ticketed intent that went through plain `ingest`.
+    pub cross_route_retries: u32,
 }
 
 pub fn build_engine(workers: u8) -> Engine {
@@ -827,6 +836,9 @@ impl World {
             engine: build_engine(topo.workers),
             keys,
             policies,
+            restarts: 0,
+            submit_counts: std::collections::BTreeMap::new(),
+            cross_route_retries: 0,
         }
     }
 
@@ -881,7 +893,15 @@ impl World {
     pub fn submit(&mut self, spec: &IntentSpec) -> SubmitObs {
         let env = spec.envelope(&self.topo);
         let id = env.ingress_id();
-        if !spec.is_ticketed() {
+        let nth = {
+            let c = self.submit_counts.entry(id).or_insert(0);
+            *c += 1;
+            *c
+        };
+        if spec.is_ticketed() && nth % 2 == 0 {
+            self.cross_route_retries += 1;
+        }
+        if !spec.is_ticketed() || nth % 2 == 0 {
             return match self.runtime.ingest(env) {
                 Ok(IngressDisposition::Accepted {
                     ingress_id,
@@ -1069,6 +1089,26 @@ impl World {
         fresh
             .restore_causal_runtime_history(&self.provenance, &entries, &correlations)
             .map_err(|e| format!("restore causal history: {e}"))?;
+        // Recovery must be idempotent: a host may replay the same retained history twice
+        // (repeat enable after a restart), or over a runtime that already holds it.
+        let shape = self.restarts % 3;
+        self.restarts += 1;
+        if shape == 1 {
+            fresh
+                .restore_causal_runtime_history(&self.provenance, &entries, &correlations)
+                .map_err(|e| format!("second restore of the same causal history: {e}"))?;
+        } else if shape == 2 {
+            let mut warm = self.runtime.clone();
+            if warm.restore_causal_runtime_history(&self.provenance, &entries, &correlations).is_ok() {
+                for (i, p) in self.policies.clone().iter().enumerate() {
+                    warm.verif_set_inbox_policy(self.keys[i], p.to_policy()).map_err(|e| format!("{e}"))?;
+                }
+                self.runtime = warm;
+                self.engine = build_engine(self.topo.workers);
+                return Ok(());
+            }
+            // a runtime that refuses to be restored over falls back to the fresh one
+        }
         for (i, p) in self.policies.clone().iter().enumerate() {
             fresh
                 .verif_set_inbox_policy(self.keys[i], p.to_policy())
